@@ -44,6 +44,11 @@ func histSystems(cloud bool) []*HistSys {
 // c03Systems: the C02 systems plus, per reserving class, the pod-IP sync alphabet from a state with one pod bound.
 func c03Systems() []*HistSys {
 	out := histSystems(false)
+	// same-named statefulsets in two namespaces (nothing keyed by the app name alone may leak from one to the other)
+	for _, c := range []wkClass{{"ststwin", "immutable"}, {"ststwin", ""}} {
+		out = append(out, &HistSys{Class: c, Cfg: cfgTwoPools(false), NPods: 2, Replicas: 2, Ops: histOpsAll, PrefixName: "allbound",
+			Prefix: []Op{{Kind: "create", A: 0}, {Kind: "sched", A: 0}, {Kind: "create", A: 1}, {Kind: "sched", A: 1}}})
+	}
 	for _, c := range []wkClass{{"sts", "immutable"}, {"sts", "never"}, {"dppool", ""}, {"dp", "never"}, {"bare", "never"}} {
 		out = append(out, &HistSys{Class: c, Cfg: cfgTwoPools(false), NPods: 1, Replicas: 2, Ops: histOpsSync, PrefixName: "syncpath",
 			Prefix: []Op{{Kind: "create", A: 0}, {Kind: "sched", A: 0}}})
